@@ -1,6 +1,7 @@
 package sim
 
 import (
+	"bytes"
 	"encoding/json"
 	"errors"
 	"fmt"
@@ -122,6 +123,19 @@ func judgeJSONToken(tok string, mode uint8, before, after D, where string) strin
 		}
 	}
 	return ""
+}
+
+type jsonEmb struct{ E D }
+
+type jsonDoc2 struct {
+	Arr [2]D
+	P   map[string]*D
+	PP  **D
+	I   any
+	S   []*D
+	jsonEmb
+	O   D               `json:"o,omitempty"`
+	Raw json.RawMessage `json:"raw,omitempty"`
 }
 
 type jsonDoc struct {
@@ -297,6 +311,145 @@ func init() {
 					return "null did not decode to a nil *Decimal"
 				}
 				continue
+			}
+			if s := checkRoundTrip(want[i], r.D[i], "encoding/json field "+names[i]); s != "" {
+				return s + " (document " + r.S[0] + ")"
+			}
+		}
+		return ""
+	}
+
+	// JSONRT2: the shapes in which encoding/json reaches UnmarshalJSON in other
+	// ways than JSONRT: a fixed-size array, map values that are pointers, an
+	// interface holding a pointer, an embedded struct, a pointer to a pointer,
+	// a slice of pointers, a json.RawMessage forwarded by hand. D[0..3] =
+	// values, D[4] = stale destination content; I[0] bit 0: the pointer fields
+	// are nil (null), bit 1: indented output without HTML escaping, bit 2: the
+	// destination's pointers all alias one stale Decimal.
+	reg("JSONRT2", func(x *Ctx, op *Op, r *Result) {
+		a, b, c, e := op.dec(0), op.dec(1), op.dec(2), op.dec(3)
+		fl := op.int(0)
+		src := jsonDoc2{Arr: [2]D{a, b}, jsonEmb: jsonEmb{E: e}, O: c, I: &a, S: []*D{&b, nil}, Raw: nil}
+		if fl&1 == 0 {
+			pc := &c
+			src.P = map[string]*D{"k": &b}
+			src.PP = &pc
+		}
+		st := make([]D, 6)
+		for i := range st {
+			st[i] = op.dec(4)
+		}
+		if fl&4 != 0 {
+			st = st[:1]
+		}
+		at := func(i int) *D { return &st[i%len(st)] }
+		pp := at(1)
+		dst := jsonDoc2{Arr: [2]D{op.dec(4), op.dec(4)}, jsonEmb: jsonEmb{E: op.dec(4)}, O: op.dec(4),
+			P: map[string]*D{"k": at(0), "z": at(5)}, PP: &pp, I: at(2), S: []*D{at(3), at(4), at(5)}}
+		x.call(r, func() {
+			var buf bytes.Buffer
+			enc := json.NewEncoder(&buf)
+			if fl&2 != 0 {
+				enc.SetIndent(" ", "\t")
+				enc.SetEscapeHTML(false)
+			}
+			err := enc.Encode(&src)
+			r.str(buf.String())
+			r.err(err)
+			if err != nil {
+				return
+			}
+			// the Raw field travels as a json.RawMessage and is handed to
+			// UnmarshalJSON by the client itself
+			var raw struct{ O json.RawMessage }
+			if err := json.Unmarshal(buf.Bytes(), &raw); err != nil {
+				r.extra("unmarshal (RawMessage): " + err.Error())
+				return
+			}
+			var viaRaw D
+			if err := viaRaw.UnmarshalJSON(raw.O); err != nil {
+				r.extra("UnmarshalJSON(RawMessage): " + err.Error())
+				return
+			}
+			if err := json.Unmarshal(buf.Bytes(), &dst); err != nil {
+				r.extra("unmarshal: " + err.Error())
+				return
+			}
+			r.dec(dst.Arr[0], dst.Arr[1], dst.E, dst.O, viaRaw)
+			pi, _ := dst.I.(*D)
+			ptrs := []*D{nil, nil, pi, nil}
+			if dst.P != nil {
+				ptrs[0] = dst.P["k"]
+			}
+			if dst.PP != nil {
+				ptrs[1] = *dst.PP
+			}
+			if len(dst.S) == 2 {
+				ptrs[3] = dst.S[0]
+				r.bool(dst.S[1] == nil)
+			} else {
+				r.extra(fmt.Sprintf("len(S)=%d", len(dst.S)))
+			}
+			for _, q := range ptrs {
+				if q != nil {
+					r.dec(*q)
+					r.bool(true)
+				} else {
+					r.dec(D{})
+					r.bool(false)
+				}
+			}
+			_, stays := dst.P["z"]
+			r.bool(stays)
+		})
+	}).Check = func(x *Ctx, op *Op, r *Result) string {
+		if s := noPanic(r); s != "" {
+			return s
+		}
+		vals := []D{op.dec(0), op.dec(1), op.dec(2), op.dec(3)}
+		for _, v := range vals {
+			if isSpecBits(v) {
+				var uve *json.UnsupportedValueError
+				if !errors.As(r.Err, &uve) {
+					return fmt.Sprintf("Encoder.Encode of a document with NaN/Inf returned %v, want *json.UnsupportedValueError", r.Err)
+				}
+				return ""
+			}
+		}
+		if r.Err != nil {
+			return "Encoder.Encode failed: " + r.Err.Error()
+		}
+		if len(r.X) > 0 {
+			return fmt.Sprintf("document %s: %s", r.S[0], r.X[0])
+		}
+		if len(r.D) != 9 || len(r.B) != 6 {
+			return "decoded document has the wrong shape"
+		}
+		a, b, c, e := vals[0], vals[1], vals[2], vals[3]
+		null := op.int(0)&1 != 0
+		want := []D{a, b, e, c, c, b, c, a, b}
+		if op.int(0)&4 != 0 {
+			// the destination's PP, I and S[0] point at one Decimal (the
+			// client's own aliasing): encoding/json decodes into it three
+			// times in document order and the last one, S[0], stays
+			want[6], want[7] = b, b
+		}
+		names := []string{"Arr[0]", "Arr[1]", "embedded E", "o", "o via json.RawMessage", `*P["k"]`, "**PP", "I.(*Decimal)", "*S[0]"}
+		if !r.B[0] {
+			return "S[1]: null did not decode to a nil *Decimal"
+		}
+		for i := range want {
+			if i >= 5 {
+				present := r.B[1+i-5]
+				if null && (i == 5 || i == 6) {
+					if present {
+						return names[i] + ": null did not reset the pointer"
+					}
+					continue
+				}
+				if !present {
+					return names[i] + ": pointer is nil after decoding a number"
+				}
 			}
 			if s := checkRoundTrip(want[i], r.D[i], "encoding/json field "+names[i]); s != "" {
 				return s + " (document " + r.S[0] + ")"
